@@ -30,6 +30,9 @@ type StageSc struct {
 	// CtxDone: the stage hands an already cancelled context on (the remainder of the chain still runs: only the
 	// client transport at the very end looks at the context). Detach: it hands on a context that can no longer be
 	// cancelled (context.WithoutCancel)
+	// OtherOp (with Replace, batch-item chain): the substituted batch item is of the *other* routed operation
+	// (Activate <-> Revoke): the core has to dispatch on the item it is handed, not on the one that entered the chain
+	OtherOp bool `json:"other_op,omitempty"`
 	CtxDone bool `json:"ctx_done,omitempty"`
 	Detach  bool `json:"detach,omitempty"`
 	// Parallel: the stage issues its continuation calls concurrently (hedging / fan-out) and waits for all of them
@@ -58,6 +61,7 @@ func genStage(g *simrt.Tape) StageSc {
 	st := StageSc{Calls: []int{1, 1, 1, 0, 2, 2, 3}[g.Draw(7)], Replace: g.Draw(3) == 0, Wrap: g.Draw(3) == 0, Yield: g.Draw(3) == 0}
 	st.Ret = []string{"", "", "", "first", "fab", "err"}[g.Draw(6)]
 	st.Parallel = st.Calls >= 2 && g.Draw(3) == 0
+	st.OtherOp = st.Replace && g.Draw(2) == 0
 	st.CtxDone = g.Draw(8) == 0
 	st.Detach = g.Draw(8) == 0
 	return st
@@ -125,7 +129,7 @@ func decodeC19(raw json.RawMessage) (any, error) {
 // the 9-behaviour alphabet of the floor
 var c19Alphabet = []StageSc{
 	{Calls: 1}, {Calls: 0, Ret: "fab"}, {Calls: 0, Ret: "err"}, {Calls: 2}, {Calls: 3, Ret: "first"}, {Calls: 2, Parallel: true},
-	{Calls: 1, Replace: true}, {Calls: 1, Wrap: true}, {Calls: 2, Replace: true, Wrap: true}, {Calls: 1, Ret: "err"}, {Calls: 1, CtxDone: true}, {Calls: 1, Detach: true},
+	{Calls: 1, Replace: true}, {Calls: 1, Wrap: true}, {Calls: 2, Replace: true, Wrap: true}, {Calls: 1, Ret: "err"}, {Calls: 1, CtxDone: true}, {Calls: 1, Detach: true}, {Calls: 2, Replace: true, OtherOp: true},
 }
 
 func c19Floor(tier string) []*C19Sc {
@@ -317,6 +321,17 @@ func respIdentity(resp *kmip.ResponseMessage) string {
 	return fmt.Sprintf("other(%d items)", len(resp.BatchItem))
 }
 
+// itemToken returns the token carried by a request batch item of either routed operation.
+func itemToken(bi *kmip.RequestBatchItem) string {
+	switch p := bi.RequestPayload.(type) {
+	case *payloads.ActivateRequestPayload:
+		return p.UniqueIdentifier
+	case *payloads.RevokeRequestPayload:
+		return p.UniqueIdentifier
+	}
+	return "?"
+}
+
 func itemIdentity(bi *kmip.ResponseBatchItem) string {
 	if bi == nil {
 		return "nil"
@@ -325,6 +340,10 @@ func itemIdentity(bi *kmip.ResponseBatchItem) string {
 		return bi.ResultMessage
 	}
 	if p, ok := bi.ResponsePayload.(*payloads.ActivateResponsePayload); ok {
+		_, mm := markerOfToken(p.UniqueIdentifier)
+		return "core:" + mm
+	}
+	if p, ok := bi.ResponsePayload.(*payloads.RevokeResponsePayload); ok {
 		_, mm := markerOfToken(p.UniqueIdentifier)
 		return "core:" + mm
 	}
@@ -435,10 +454,7 @@ func registerPlan(sc *C19Sc, n int, use func(a, b int), sibling func(a, b int), 
 func (cr *chainRun) itemStage(i int) kmipserver.BatchItemMiddleware {
 	st := programStages(cr.sc.Stages)[i]
 	return func(next kmipserver.BatchItemNext, ctx context.Context, bi *kmip.RequestBatchItem) (*kmip.ResponseBatchItem, error) {
-		tok := "?"
-		if p, ok := bi.RequestPayload.(*payloads.ActivateRequestPayload); ok {
-			tok = p.UniqueIdentifier
-		}
+		tok := itemToken(bi)
 		req, mm := markerOfToken(tok)
 		cm := ctxMarkOf(ctx)
 		cr.rec(req, fmt.Sprintf("enter s%d ctx=%s msg=%s", i, cm, mm))
@@ -453,7 +469,16 @@ func (cr *chainRun) itemStage(i int) kmipserver.BatchItemMiddleware {
 			c = realHandDown(ctx, st, cm, i, k)
 			if st.Replace {
 				cp := *bi
-				cp.RequestPayload = &payloads.ActivateRequestPayload{UniqueIdentifier: withMsgMark(tok, fmt.Sprintf("~s%dc%d", i, k))}
+				marked := withMsgMark(tok, fmt.Sprintf("~s%dc%d", i, k))
+				revoke := bi.Operation == kmip.OperationRevoke
+				if st.OtherOp {
+					revoke = !revoke
+				}
+				if revoke {
+					cp.Operation, cp.RequestPayload = kmip.OperationRevoke, &payloads.RevokeRequestPayload{UniqueIdentifier: marked}
+				} else {
+					cp.Operation, cp.RequestPayload = kmip.OperationActivate, &payloads.ActivateRequestPayload{UniqueIdentifier: marked}
+				}
 				b = &cp
 			}
 			call := func(k int) {
@@ -534,11 +559,7 @@ func execC19(x *X, scAny any) {
 			list = append(list, cr.itemStage(i))
 		}
 		sib := func(next kmipserver.BatchItemNext, ctx context.Context, bi *kmip.RequestBatchItem) (*kmip.ResponseBatchItem, error) {
-			tok := "?"
-			if p, ok := bi.RequestPayload.(*payloads.ActivateRequestPayload); ok {
-				tok = p.UniqueIdentifier
-			}
-			req, _ := markerOfToken(tok)
+			req, _ := markerOfToken(itemToken(bi))
 			cr.rec(req, "stage of another executor ran")
 			return next(ctx, bi)
 		}
